@@ -1,3 +1,4 @@
+import Generated.Curves
 import Generated.EcdsaInt
 import Generated.Kernels
 import Generated.NTTables
